@@ -305,3 +305,90 @@ Proof.
   | rewrite (ip6_by_rule_untracked c s f Hp H6 Hl Hg) in E
   | rewrite (non_ip_untracked c s f Hp H4 H6 Hid) in E ]; discriminate.
 Qed.
+
+(* ---------- every PayloadID Parse can produce indexes Session.Statistics in range ---------- *)
+Lemma udp_class_lt sp dp id : udp_class sp dp = Some id -> id < stats_len.
+Proof.
+  rewrite udp_class_chain_eq. unfold udp_class_chain.
+  repeat match goal with |- context [if ?c then _ else _] => destruct c end; intros E; try discriminate;
+  injection E as <-; vm_compute; reflexivity.
+Qed.
+
+Lemma parse_proto_id fx s f proto : f_id f < stats_len -> post (fun f' => f_id f' < stats_len) (parse_proto fx s f proto).
+Proof.
+  intros Hf. rewrite parse_proto_chain_eq. unfold parse_proto_chain.
+  repeat match goal with |- context [if proto =? ?k then _ else _] => destruct (proto =? k) end; try exact Hf;
+  try (cbn [post]; vm_compute; reflexivity).
+  - (* UDP *)
+    apply post_bind; intros p _. apply post_bind; intros _ _. apply post_bind; intros sp _. apply post_bind; intros dp _.
+    destruct (udp_class sp dp) as [id|] eqn:E; cbn [post]; cbn [f_id set_id set_offP set_ports set_offU];
+    [apply (udp_class_lt sp dp id E)|vm_compute; reflexivity].
+  - (* TCP *) blind; cbn [post]; cbn; vm_compute; reflexivity.
+  - (* ICMP4 *) blind; cbn [post]; cbn; vm_compute; reflexivity.
+  - (* ICMP6 *) blind; cbn [post]; cbn; vm_compute; reflexivity.
+Qed.
+
+Theorem parse_id_in_range c s : post (fun f => 0 < f_id f /\ f_id f < stats_len) (parse c s).
+Proof.
+  assert (Hpos : post (fun f => 0 < f_id f) (parse c s) -> post (fun f => f_id f < stats_len) (parse c s) ->
+                 post (fun f => 0 < f_id f /\ f_id f < stats_len) (parse c s)).
+  { destruct (parse c s); cbn [post]; auto. }
+  apply Hpos; clear Hpos.
+  - (* ids start at 1: every id is one of the constants, none is 0; via the range proof's structure *)
+    rewrite parse_chain_eq. unfold parse_chain.
+    apply post_bind; intros _ _. apply post_bind; intros smac _. apply post_bind; intros dmac _. apply post_bind; intros hl _.
+    destruct (Nat.ltb (len s) hl); [exact I|].
+    destruct (negb (is_unicast_mac smac)); [cbn; vm_compute; reflexivity|].
+    apply post_bind; intros et _. destruct (et <? 1536); [cbn; vm_compute; reflexivity|].
+    assert (HP : forall fx f proto, 0 < f_id f -> post (fun f' => 0 < f_id f') (parse_proto fx s f proto)).
+    { intros fx f proto Hf. rewrite parse_proto_chain_eq. unfold parse_proto_chain.
+      repeat match goal with |- context [if proto =? ?k then _ else _] => destruct (proto =? k) end; try exact Hf;
+      try (cbn [post]; vm_compute; reflexivity).
+      - apply post_bind; intros p _. apply post_bind; intros _ _. apply post_bind; intros sp _. apply post_bind; intros dp _.
+        destruct (udp_class sp dp) as [id|] eqn:E; cbn [post]; cbn [f_id set_id set_offP set_ports set_offU]; [|vm_compute; reflexivity].
+        revert E. rewrite udp_class_chain_eq. unfold udp_class_chain.
+        repeat match goal with |- context [if ?c then _ else _] => destruct c end; intros E; try discriminate;
+        injection E as <-; vm_compute; reflexivity.
+      - blind; cbn [post]; cbn; vm_compute; reflexivity.
+      - blind; cbn [post]; cbn; vm_compute; reflexivity.
+      - blind; cbn [post]; cbn; vm_compute; reflexivity. }
+    destruct (et =? 2048).
+    { unfold parse_ip4. apply post_bind; intros p _. apply post_bind; intros _ _. apply post_bind; intros ihl _.
+      apply post_bind; intros proto _. apply post_bind; intros sip _. apply post_bind; intros dip _.
+      apply HP. cbn. vm_compute. reflexivity. }
+    destruct (et =? 34525).
+    { unfold parse_ip6. apply post_bind; intros p _. apply post_bind; intros _ _.
+      apply post_bind; intros proto _. apply post_bind; intros sip _. apply post_bind; intros dip _.
+      apply HP. cbn. vm_compute. reflexivity. }
+    destruct (et =? 2054).
+    { unfold parse_arp. apply post_bind; intros p _. apply post_bind; intros bad _. destruct bad; [exact I|].
+      apply post_bind; intros sip _. apply post_bind; intros h _. cbn. vm_compute. reflexivity. }
+    repeat match goal with |- context [if ?c then _ else _] => destruct c end; try (cbn; vm_compute; reflexivity);
+    unfold parse_leaf; apply post_bind; intros hl' _; cbn; vm_compute; reflexivity.
+  - rewrite parse_chain_eq. unfold parse_chain.
+    apply post_bind; intros _ _. apply post_bind; intros smac _. apply post_bind; intros dmac _. apply post_bind; intros hl _.
+    destruct (Nat.ltb (len s) hl); [exact I|].
+    destruct (negb (is_unicast_mac smac)); [cbn; vm_compute; reflexivity|].
+    apply post_bind; intros et _. destruct (et <? 1536); [cbn; vm_compute; reflexivity|].
+    destruct (et =? 2048).
+    { unfold parse_ip4. apply post_bind; intros p _. apply post_bind; intros _ _. apply post_bind; intros ihl _.
+      apply post_bind; intros proto _. apply post_bind; intros sip _. apply post_bind; intros dip _.
+      apply parse_proto_id. cbn. vm_compute. reflexivity. }
+    destruct (et =? 34525).
+    { unfold parse_ip6. apply post_bind; intros p _. apply post_bind; intros _ _.
+      apply post_bind; intros proto _. apply post_bind; intros sip _. apply post_bind; intros dip _.
+      apply parse_proto_id. cbn. vm_compute. reflexivity. }
+    destruct (et =? 2054).
+    { unfold parse_arp. apply post_bind; intros p _. apply post_bind; intros bad _. destruct bad; [exact I|].
+      apply post_bind; intros sip _. apply post_bind; intros h _. cbn. vm_compute. reflexivity. }
+    repeat match goal with |- context [if ?c then _ else _] => destruct c end; try (cbn; vm_compute; reflexivity);
+    unfold parse_leaf; apply post_bind; intros hl' _; cbn; vm_compute; reflexivity.
+Qed.
+
+(* every id Parse uses as an index on any path (the ids of the three tables and the fixed ones) is below the length *)
+Lemma table_ids_in_range :
+  forallb (fun r => snd r <? stats_len) ethertype_rows && forallb (fun r => snd r <? stats_len) ipproto_rows
+  && forallb (fun r => snd r <? stats_len) udp_port_rows
+  && forallb (fun i => i <? stats_len) [PayloadEther; Payload8023; PayloadARP; PayloadIP4; PayloadIP6; PayloadUDP; PayloadTCP;
+                                        PayloadICMP4; PayloadICMP6; PayloadIGMP] = true.
+Proof. vm_compute. reflexivity. Qed.
